@@ -20,7 +20,7 @@ def ffloor(q):
 
 
 def close(a, b, tol=1e-9):
-    return abs(a - b) <= tol * max(1.0, abs(a), abs(b))
+    return a == b or abs(a - b) <= tol * max(1.0, abs(a), abs(b))
 
 
 def wrap_exact(x, c, P):
@@ -576,7 +576,7 @@ def oracle(c, impl, traj):
     st = steps_of(c)
     tab, pend = [], []
     facts = {"deposits": 0, "projections": 0, "outside_steps": 0, "expansions": 0, "saves": 0, "wt_outside": 0,
-             "wrapped_steps": 0, "restarts": 0, "rebins": 0}
+             "wrapped_steps": 0, "restarts": 0, "rebins": 0, "antipodal_steps": 0}
     restarted = False
     off_at_restart = []
     lingering = False      # after a restart without keepHills the hills near the edges stay listed until the next projection
@@ -698,6 +698,13 @@ def oracle(c, impl, traj):
         eE, eF, ins = spec_bias(c, geom, x, tab, pend)
         if not ins and c["use_grids"]:
             facts["outside_steps"] += 1
+        if any(t != t or abs(t) == float("inf") for f in eF for t in f):
+            # a unit vector exactly opposite to the centre of a hill in range: the gradient of the squared angle is
+            # singular there (colvarvalue::dist2_grad divides by sin = 0); ambiguous for this property, counted
+            facts["antipodal_steps"] += 1
+            if not close(im["E"], eE):
+                return ("energy", "step %d (it=%d, x=%s): energy %r, sum of the deposited hills gives %r" % (n, it, x, im["E"], eE), n), facts
+            continue
         if not close(im["E"], eE) or not force_close(tangential(c, im["F"], x), tangential(c, eF, x)):
             what = "energy %r force %s, sum of the deposited hills gives energy %r force %s" % (im["E"], im["F"], eE, eF)
             misaligned = c["use_grids"] and any(v["gper"] and not (g[1] <= xv[0] < g[2]) for v, g, xv in zip(c["vars"], geom, x))
@@ -839,7 +846,7 @@ def check_one(run, c, impl, mo, txt, rcv, o, traj, mline):
     run.dist("vector_vars", sum(1 for v in c["vars"] if v["kind"] == 1))
     run.dist("unit_vector_vars", sum(1 for v in c["vars"] if v["kind"] == 2))
     run.dist("steps", len(impl))
-    for kk in ("deposits", "projections", "outside_steps", "expansions", "saves", "wt_outside", "wrapped_steps", "restarts", "rebins"):
+    for kk in ("deposits", "projections", "outside_steps", "expansions", "saves", "wt_outside", "wrapped_steps", "restarts", "rebins", "antipodal_steps"):
         run.dist(kk, facts[kk])
     if bad:
         sig, text, n = bad
